@@ -163,7 +163,11 @@ def default_equal_other_type(cfg):
     except (TypeError, ValueError):
       continue
     for k, v in b.__arguments__.items():
-      p = sig.parameters.get(k) if isinstance(k, str) else None
+      if isinstance(k, str):
+        p = sig.parameters.get(k)
+      else:       # a positional-only parameter is stored under its index
+        ps = list(sig.parameters.values())
+        p = ps[k] if k < len(ps) and ps[k].kind == ps[k].POSITIONAL_ONLY else None
       if p is not None and p.default is not p.empty:
         try:
           if v == p.default and (type(v) is not type(p.default)
